@@ -1092,6 +1092,29 @@ func runC10(r *RunCtx) error {
 						mk("add", "view", "v1,v10,v100", "a,b,c"), mk("remove", "view", "v100,v10", ""), mk("remove", "edit", c10Editor(tgt.TrackingNumber, g.accts[own].String())+"-old", ""))
 				}
 			}
+			// directed: an entry handed to the receiver's plain address (a client that forgot to hash it, in either
+			// spelling) belongs to nobody; the account named that way then tries every owner-only message on it
+			if h%2 == 1 && s == len(opening) && len(opening) > 0 && len(preL) > 0 {
+				if own := g.ownerOf(preL[0].F); own >= 0 {
+					tgt := preL[0].F
+					acct := hexsha(g.accts[own].String())
+					for ci, plain := range []string{g.accts[3].String(), strings.ToUpper(g.accts[2].String())} {
+						named := g.accts[3-ci].String()
+						child := hexsha(fmt.Sprintf("handed-to-plain-address-%d", ci))
+						addr := fttypes.AddToMerkle(tgt.Address, child)
+						tn := g.tracking()
+						lost := hexsha("o" + addr + plain) // what ChangeOwner stores for this NewOwner
+						queue = append(queue,
+							c10Op{Kind: "post", Creator: g.accts[own].String(), Account: acct, HashParent: tgt.Address, HashChild: child, Contents: "c",
+								Viewers: g.aclJSON("view", tn, []int{own}), Editors: g.aclJSON("edit", tn, []int{own}), Tracking: tn, Shape: "plain-address-handover"},
+							c10Op{Kind: "chown", Creator: g.accts[own].String(), Address: addr, FileOwner: acct, NewOwner: plain, Shape: "plain-address-handover"},
+							c10Op{Kind: "add", K: "edit", Creator: named, Address: addr, FileOwner: lost, Ids: c10Editor(tn, named), Keys: "k", Shape: "named-by-plain-address"},
+							c10Op{Kind: "reset", K: "view", Creator: named, Address: addr, FileOwner: lost, Shape: "named-by-plain-address"},
+							c10Op{Kind: "chown", Creator: named, Address: addr, FileOwner: plain, NewOwner: hexsha(named), Shape: "named-by-plain-address"},
+							c10Op{Kind: "delete", Creator: named, HashPath: addr, Account: plain, Shape: "named-by-plain-address"})
+					}
+				}
+			}
 			if len(queue) > 0 && forced == nil && s >= len(opening) {
 				o = queue[0]
 				queue = queue[1:]
